@@ -31,8 +31,12 @@ def main(argv=None) -> int:
     if a.cmd == "replay":
         d = json.loads(open(a.path).read())
         v = d["violations"][0]
-        os.environ["LWVERIF_ONLY_SHARD"] = str(v["shard"])
-        return core.main_run(v["property"], v["tier"], v["seed"])
+        # re-run exactly the shard that produced the witness (deterministic from seed + shard); evidence and replay
+        # files of a replay go to a scratch directory so that the registered evidence is not overwritten
+        env = dict(os.environ, LWVERIF_ONLY_SHARD=str(v["shard"]),
+                   LWVERIF_OUT=str(core.ROOT / ".work" / "replay"), LWVERIF_REPOTESTS="0")
+        os.execve(sys.executable, [sys.executable, "-m", "lwverif", "run", v["property"], "--tier", v["tier"],
+                                   "--seed", str(v["seed"])], env)
     return 2
 
 
